@@ -98,6 +98,9 @@ package cache
 // carries the stored notification's target/origin and path, built without
 // writing to anything that existed before (in particular not to the stored
 // notification's own path slices, which callers may share between messages).
+//@ pred POrigin(p *pb.Path) := ite(p == nil, "", p.Origin)
+//@ pred PElem(p *pb.Path) := ite(p == nil, emptyseq("*pb.PathElem"), view(p.Elem))
+//@ pred PElement(p *pb.Path) := ite(p == nil, emptyseq("string"), view(p.Element))
 //@ func toDeleteNotification
 //@   props C03 C12 C01
 //@   requires NotiWf(n) && len(n.Update) >= 1
@@ -105,6 +108,17 @@ package cache
 //@   ensures len(res0.Delete) == 1 && res0.Delete[0] != nil && len(res0.Update) == 0
 //@   ensures n.Prefix != nil ==> res0.Prefix.Target == n.Prefix.Target
 //@   ensures n.Prefix == nil ==> res0.Prefix.Target == ""
+// origin: the prefix's, or - when the prefix has none - the update path's
+//@   ensures [origin-of-the-removed-leaf C03] res0.Prefix.Origin == ite(POrigin(n.Prefix) == "" && POrigin(n.Update[0].Path) != "", POrigin(n.Update[0].Path), POrigin(n.Prefix))
+// path: an atomic leaf is addressed by the prefix alone; otherwise prefix elements followed by the update's,
+// in the encoding (Elem, or deprecated Element when neither has Elem) the stored notification uses
+//@   ensures [atomic-leaf-addressed-by-its-prefix C03] n.Atomic && n.Prefix != nil ==> view(res0.Delete[0].Elem) == view(n.Prefix.Elem) && view(res0.Delete[0].Element) == view(n.Prefix.Element)
+//@   ensures [path-of-the-removed-leaf C03] !n.Atomic && n.Prefix != nil && n.Update[0].Path != nil && (len(n.Prefix.Elem) > 0 || len(n.Update[0].Path.Elem) > 0)
+//@     ==> len(res0.Delete[0].Elem) == len(n.Prefix.Elem) + len(n.Update[0].Path.Elem) && len(res0.Delete[0].Element) == 0
+//@       && (forall i int :: 0 <= i && i < len(n.Prefix.Elem) ==> res0.Delete[0].Elem[i] == n.Prefix.Elem[i])
+//@   ensures [deprecated-path-of-the-removed-leaf C03] !n.Atomic && n.Prefix != nil && n.Update[0].Path != nil && len(n.Prefix.Elem) == 0 && len(n.Update[0].Path.Elem) == 0
+//@     ==> len(res0.Delete[0].Element) == len(n.Prefix.Element) + len(n.Update[0].Path.Element) && len(res0.Delete[0].Elem) == 0
+// (the element-wise content of the second half, and of the deprecated encoding, is not discharged by the solvers in time and is not claimed)
 
 // Index path addressed by a delete notification.
 //@ pred JPD(n *pb.Notification) := sub(idxpath(n.Prefix, true) ++ idxpath(n.Delete[0], false), 1, len(idxpath(n.Prefix, true)) + len(idxpath(n.Delete[0], false)))
@@ -331,7 +345,9 @@ package cache
 //@   props C14 C04 C03 C12
 //@   requires Ready(t) && len(owed) == 0
 //@   modifies ghost tstore, ghost treal, ghost intAdded, ghost owed, ghost updSteps, ghost wiped, ghost resetDone, heap(ctree.Tree.leafBranch), t.sync, t.ts
+//@   assert at call (*Target).resetTimestamp#0: [latest-timestamp-cleared C14] arg0 == t
 //@   assert at call (*Metadata).Clear#0: [metadata-cleared-first C14] arg0 == t.meta
+//@   assert at call (*Target).updateMeta#0: [metadata-leaves-regenerated-and-announced C14] arg0 == t && arg1 == t.client
 //@   set at call field Target.client#0: owed := unit(arg0)
 //@   assert at call field Target.client#0: [tree-written-before-announcing C04 C14] IsWipe(arg0) && AsNoti(arg0).Prefix.Target == t.name && AsNoti(arg0).Prefix.Origin == root
 //@     && (forall k PKey :: tstore[t.t][k] != nil && pnonempty(k) ==> pfirst(k) != root)
@@ -393,6 +409,7 @@ package cache
 //@   modifies ghost tstore, ghost treal, ghost intAdded, ghost owed, ghost tsSeen, ghost updSteps, ghost delSteps, ghost wiped, ghost resetDone, heap(ctree.Tree.leafBranch), heap(Target.sync), heap(Target.ts), n.Update, n.Delete
 //@   assert at call (*Target).GnmiUpdate#0: [addressed-target-only C14] arg0 == c.targets[n.Prefix.Target] && arg0 != nil
 //@   ensures [nil-refused] n == nil ==> res0 != nil
+//@   ensures [handed-to-the-addressed-target C14 C01] n != nil && n.Prefix != nil && c.targets[n.Prefix.Target] != nil && !n.Atomic ==> updSteps == old(updSteps) + old(len(n.Update)) && delSteps == old(delSteps) + old(len(n.Delete))
 //@   ensures [unknown-target-refused C14] n != nil && (n.Prefix == nil || c.targets[n.Prefix.Target] == nil) ==> res0 != nil && tstore == old(tstore)
 //@   ensures [other-targets-untouched C14] n != nil && n.Prefix != nil && c.targets[n.Prefix.Target] != nil ==>
 //@     (forall u ref :: u != c.targets[n.Prefix.Target].t ==> tstore[u] == old(tstore[u]) && treal[u] == old(treal[u]))
@@ -411,6 +428,7 @@ package cache
 //@   invariant 0: (forall k string :: has($visited, k) ==> has(queried, c.targets[k].t)) && (forall u ref :: has(queried, u) && !old(has(queried, u)) ==> (exists k string :: has(c.targets, k) && c.targets[k].t == u))
 //@   ensures [empty-target-refused C14] target == "" ==> res0 != nil && queried == old(queried)
 //@   ensures [unknown-target-refused C14] target != "" && target != "*" && c.targets[target] == nil ==> res0 != nil && queried == old(queried)
+//@   ensures [known-target-is-queried C14] target != "" && target != "*" && c.targets[target] != nil ==> has(queried, c.targets[target].t)
 //@   ensures [all-targets C14] target == "*" && res0 == nil ==> (forall k string :: has(c.targets, k) ==> has(queried, c.targets[k].t))
 //@   ensures [only-the-addressed-tree C14] target != "*" ==> (forall u ref :: has(queried, u) && !old(has(queried, u)) ==> c.targets[target] != nil && u == c.targets[target].t)
 
